@@ -25,6 +25,7 @@ pub mod c17;
 pub mod c18;
 pub mod c19;
 pub mod c20;
+pub mod session;
 
 pub type PropList = Vec<(Box<dyn PropDyn>, u32, u32)>;
 
